@@ -2,7 +2,7 @@
 
 namespace photospline{
 
-bool integerFitsKeyword(fitsfile* fits, const char* key){
+bool integerFitsKeyword(fitsfile* fits, const char* key, uint32_t& result){
 	char value[FLEN_VALUE];
 	int status = 0;
 	fits_read_keyword(fits, key, value, NULL, &status);
@@ -11,23 +11,29 @@ bool integerFitsKeyword(fitsfile* fits, const char* key){
 	const char* p = value;
 	while (*p == ' ')
 		p++;
-	if (*p == '+' || *p == '-')
+	if (*p == '+')
 		p++;
+	uint64_t v = 0;
 	size_t digits = 0;
-	for ( ; *p >= '0' && *p <= '9'; p++)
-		digits++;
+	for ( ; *p >= '0' && *p <= '9'; p++) {
+		if (++digits > 10)
+			return (false);
+		v = 10*v + (*p - '0');
+	}
 	while (*p == ' ')
 		p++;
-	return (*p == '\0' && digits > 0 && digits <= 18);
+	if (*p != '\0' || digits == 0 || v > 0xFFFFFFFFull)
+		return (false);
+	result = v;
+	return (true);
 }
 	
 std::vector<uint32_t> readOrder(fitsfile* fits, uint32_t ndim){
 	int error = 0;
 	std::vector<uint32_t> order(ndim);
 	//See if there is a single order value
-	if (!integerFitsKeyword(fits, "ORDER"))
+	if (!integerFitsKeyword(fits, "ORDER", order[0]))
 		error = KEY_NO_EXIST;
-	fits_read_key(fits, TINT, "ORDER", &order[0], NULL, &error);
 	if (error != 0) {
 		error = 0;
 		
@@ -35,9 +41,8 @@ std::vector<uint32_t> readOrder(fitsfile* fits, uint32_t ndim){
 		for (uint32_t i = 0; i < ndim; i++) {
 			std::ostringstream ss;
 			ss << "ORDER" << i;
-			if (!integerFitsKeyword(fits, ss.str().c_str()))
+			if (!integerFitsKeyword(fits, ss.str().c_str(), order[i]))
 				error = BAD_INTKEY;
-			fits_read_key(fits, TUINT, ss.str().c_str(), &order[i], NULL, &error);
 			if (error != 0) {
 				throw std::runtime_error("Needs real error message 6");
 			}
